@@ -45,7 +45,22 @@ func MakePage(pageSize int, pgno uint32, version uint32) []byte {
 		x += 0x9E3779B97F4A7C15
 		binary.LittleEndian.PutUint64(b[i:], x)
 	}
+	binary.BigEndian.PutUint32(b[0:], version) // readable version tag (pages other than page 1)
 	return b
+}
+
+// VersionOf extracts the version tag of a page produced by MakePage / MakePage1.
+func VersionOf(pgno uint32, b []byte) uint32 {
+	if pgno == 1 {
+		if len(b) < 108 {
+			return 0
+		}
+		return binary.BigEndian.Uint32(b[104:])
+	}
+	if len(b) < 4 {
+		return 0
+	}
+	return binary.BigEndian.Uint32(b[0:])
 }
 
 // Header builds page 1 with a valid 100-byte SQLite header.
@@ -73,6 +88,7 @@ func MakePage1(pageSize int, version uint32, pageN uint32, wal bool, changeCount
 	binary.BigEndian.PutUint32(b[56:], 1)         // text encoding utf8
 	binary.BigEndian.PutUint32(b[92:], changeCounter)
 	binary.BigEndian.PutUint32(b[96:], 3039002)
+	binary.BigEndian.PutUint32(b[104:], version)
 	return b
 }
 
@@ -87,6 +103,11 @@ type Conn struct {
 
 	// Before is called before every file operation the connection issues.
 	Before func(step int, desc string)
+	// Det selects state-determined page contents: a modified page gets version old+1, an appended page the
+	// new version of page 1; rolled-back content carries the high bit. Two histories that reach the same logical
+	// state then produce identical bytes (needed for state merging); otherwise a per-connection counter is used.
+	Det bool
+
 	Steps  int
 	Trace  []string
 	KeepTrace bool
@@ -121,6 +142,30 @@ func (c *Conn) step(desc string) {
 
 // NextVersion returns a fresh content version.
 func (c *Conn) NextVersion() uint32 { c.version++; return c.version }
+
+// ver picks the version for new content of page p whose current content is old (nil for an appended page).
+func (c *Conn) ver(p uint32, old []byte, page1New uint32, uncommitted bool) uint32 {
+	if !c.Det {
+		return c.NextVersion()
+	}
+	var v uint32
+	if old != nil {
+		v = (VersionOf(p, old) & 0x7fffffff) + 1
+	} else {
+		v = page1New
+	}
+	if uncommitted {
+		v |= 0x80000000
+	}
+	return v
+}
+
+func page1Next(cur *oracle.Image) uint32 {
+	if cur.N() == 0 {
+		return 1
+	}
+	return (VersionOf(1, cur.Pages[0]) & 0x7fffffff) + 1
+}
 
 // ---- file handles ----
 
@@ -388,7 +433,12 @@ func (c *Conn) RunRTx(tx RTx, cur *oracle.Image) (res RTxResult) {
 	if newSize == 0 {
 		newSize = origSize
 	}
-	nonce := uint32(0x1234567) + c.NextVersion()
+	p1v := page1Next(cur)
+	unc := tx.Outcome == "rollback"
+	nonce := uint32(0x1234567) + p1v
+	if !c.Det {
+		nonce += c.NextVersion()
+	}
 	noSync := tx.SyncMode == 2
 
 	// New image.
@@ -524,14 +574,14 @@ func (c *Conn) RunRTx(tx RTx, cur *oracle.Image) (res RTxResult) {
 		// Modify the page in the cache.
 		var content []byte
 		if p == 1 {
-			content = MakePage1(c.PageSize, c.NextVersion(), newSize, wal, cc)
+			content = MakePage1(c.PageSize, c.ver(1, orig, p1v, unc), newSize, wal, cc)
 			if tx.SameBytes && !tx.ToWAL && !tx.FromWAL && newSize == origSize {
 				content = append([]byte(nil), orig...)
 			}
 		} else if tx.SameBytes {
 			content = append([]byte(nil), orig...)
 		} else {
-			content = MakePage(c.PageSize, p, c.NextVersion())
+			content = MakePage(c.PageSize, p, c.ver(p, orig, p1v, unc))
 		}
 		dirty[p] = content
 		if p <= newSize {
@@ -560,7 +610,7 @@ func (c *Conn) RunRTx(tx RTx, cur *oracle.Image) (res RTxResult) {
 
 	// Appended pages (never journalled) and the first page of a new database.
 	if origSize == 0 {
-		dirty[1] = MakePage1(c.PageSize, c.NextVersion(), newSize, wal, cc)
+		dirty[1] = MakePage1(c.PageSize, c.ver(1, nil, p1v, unc), newSize, wal, cc)
 	}
 	for p := origSize + 1; p <= newSize; p++ {
 		if p == 1 {
@@ -570,7 +620,7 @@ func (c *Conn) RunRTx(tx RTx, cur *oracle.Image) (res RTxResult) {
 			dirty[p] = make([]byte, c.PageSize) // never written; placeholder
 			continue
 		}
-		dirty[p] = MakePage(c.PageSize, p, c.NextVersion())
+		dirty[p] = MakePage(c.PageSize, p, c.ver(p, nil, p1v, unc))
 	}
 	// Build the intended image.
 	if newSize < uint32(len(next.Pages)) {
